@@ -69,6 +69,21 @@ Section NodeConf.
     match table cfg with Ok t => Ok (is_responsible_in t self space) | OutOfFuel => OutOfFuel end.
 End NodeConf.
 
+(* ---------------------------------------------------------------- configuration histories
+   service.setLastConfiguration (Init, and Run -> updateConfiguration -> saveAndSetLastConfiguration):
+   a delivered configuration whose id equals the id of the active one is ignored, any other one REPLACES the active
+   configuration and the ring is rebuilt from it alone (сonfigurationToNodeConf takes nothing from the previous
+   state).  A participant's state is therefore just its active configuration. *)
+Record conf := mkConf {
+  c_id    : N;           (* Configuration.Id (numbered by the harness) *)
+  c_nodes : list node
+}.
+
+Definition set_last (cur c : conf) : conf := if (c_id cur =? c_id c)%N then cur else c.
+
+(* a participant started on [init] that then received [updates] in this order *)
+Definition run_history (init : conf) (updates : list conf) : conf := fold_left set_last updates init.
+
 (* ---------------------------------------------------------------- observations and the property predicate *)
 (* What one participant reports for one space id. *)
 Record obs := mkObs {
